@@ -510,6 +510,49 @@ theorem union_ge (ps : List Rat) (h : ∀ p ∈ ps, 0 ≤ p ∧ p ≤ 1) (p : Ra
       have := Rat.mul_le_mul_of_nonneg_right (c := compl ps) (show (1 - q : Rat) ≤ 1 by grind) c0
       grind
 
+/-! ### union on Series -/
+
+/-- the contribution of one callable as a Series over the requested labels -/
+def ser (labels : List Nat) (f : Nat → Rat) : Item := .se (labels.map fun i => (i, f i))
+
+theorem foldlM_union_series (labels : List Nat) (gs : List (Nat → Rat)) (acc : Nat → Rat) :
+    (gs.map (ser labels)).foldlM (fun (a : Item) v => a.mul v.oneMinus) (ser labels acc)
+      = some (ser labels fun i => (gs.map (· i)).foldl (fun a p => a * (1 - p)) (acc i)) := by
+  induction gs generalizing acc with
+  | nil => simp [ser]
+  | cons g gs ih =>
+    simp only [List.map_cons, List.foldlM_cons, List.foldl_cons]
+    have : (ser labels acc).mul (ser labels g).oneMinus = some (ser labels fun i => acc i * (1 - g i)) := by
+      simp only [ser, Item.oneMinus, Item.mul, List.map_map]
+      rw [if_pos (by simp [Function.comp_def])]
+      simp [List.zip_map', Function.comp_def]
+    rw [this]
+    exact ih _
+
+/-- `union_post_processor` on Series is the numeric union, simulant by simulant: every label keeps its
+place and receives `1 − Π(1 − pₖ(label))` over the contributions in any order. -/
+theorem union_series (labels : List Nat) (g : Nat → Rat) (gs : List (Nat → Rat)) :
+    unionItems ((g :: gs).map (ser labels)) = some (ser labels fun i => union ((g :: gs).map (· i))) := by
+  cases gs with
+  | nil => simp [unionItems, union]
+  | cons h gs =>
+    unfold unionItems
+    simp only [List.map_cons, List.foldlM_cons]
+    have h1 : (Item.sc 1).mul (ser labels g).oneMinus = some (ser labels fun i => 1 - g i) := by
+      simp [ser, Item.oneMinus, Item.mul, Function.comp_def, Rat.one_mul]
+    have h2 : (ser labels fun i => 1 - g i).mul (ser labels h).oneMinus = some (ser labels fun i => (1 - g i) * (1 - h i)) := by
+      simp only [ser, Item.oneMinus, Item.mul, List.map_map]
+      rw [if_pos (by simp [Function.comp_def])]
+      simp [List.zip_map', Function.comp_def]
+    rw [h1]
+    simp only [Option.bind_eq_bind, Option.bind_some, h2]
+    rw [foldlM_union_series]
+    simp only [Option.map_some, ser, Item.oneMinus, List.map_map, Function.comp_def]
+    congr 2
+    apply List.map_congr_left
+    intro i _
+    simp [union, List.foldl_cons, Rat.one_mul]
+
 /-! ### non-vacuity -/
 
 -- three non-commuting modifiers x ↦ 2x+1, x ↦ x², x ↦ x + arg: value and trace
